@@ -372,6 +372,7 @@ func (g *genCtx) genCtor(s int) *Func {
 		f.Params = oneObject(f.Params)
 	}
 	f.Variadic = ft.Variadic && g.r.P(ft.PVariadic)
+	f.OptNoise = g.r.P(0.06)
 	f.Callback = f.Callback || (ft.Callbacks && g.r.P(0.5))
 	return f
 }
@@ -834,6 +835,7 @@ func BaseFeat(r *Rng, thorough bool) Feat {
 	ft.Decorators = r.P(0.6)
 	ft.GroupDecs = r.P(0.5)
 	ft.Variadic = r.P(0.3)
+	ft.NamedSlice = r.P(0.25)
 	ft.PVariadic = []float64{0.1, 0.1, 0.4}[r.Intn(3)]
 	ft.PWide = []float64{0, 0, 0.03}[r.Intn(3)]
 	ft.PThenProvide = []float64{0, 0, 0.06}[r.Intn(3)]
@@ -905,6 +907,10 @@ func newGen(prop string, seed, run int64, thorough bool) *genCtx {
 	if r.P(0.35) {
 		// some universe positions are struct values instead of pointers
 		g.h.Cfg.ValMask = uint32(r.U64()) & uint32(r.U64()) & (1<<NumK - 1)
+	}
+	if r.P(0.2) {
+		// some positions are same-named types of another package "sim"
+		g.h.Cfg.AltMask = uint32(r.U64()) & uint32(r.U64()) & (1<<NumK - 1)
 	}
 	g.m = NewModel(g.h.Cfg.Defer)
 	return g
